@@ -103,7 +103,7 @@ type harness struct {
 	// whose transfer overlaps a window.
 	desync    [][2]time.Duration
 	lastWrite time.Duration
-	pipeSide     map[*simnet.Pipe]int
+	pipeSide  map[*simnet.Pipe]int
 	// reference E4 sender model per side (the oracle for "a block is attempted at most retry-limit+1
 	// times"): attempts of the send in progress = the ENQs this end has written since the send began
 	att          [2]int
